@@ -13,11 +13,11 @@ import (
 // argument position filled from a typed alphabet, delivered as literals and
 // through document fields.
 
-var c02Quick = []string{"null", "true", `""`, `"a"`, `"aba"`, `"aé€"`, "-1", "0", "2", "2.0", "4", "1.5", "9223372036854775807", "[]", "[2,1]", `["b","a"]`, `[["k",1]]`, `[[null,1]]`, `{"a":1}`}
+var c02Quick = []string{"null", "true", `""`, `"a"`, `"aba"`, `"aé€"`, "-1", "0", "2", "2.0", "4", "1.5", "3.00000000000000000001", "9223372036854775807", "[]", "[2,1]", `["b","a"]`, `[["k",1]]`, `[[null,1]]`, `{"a":1}`}
 
 var c02Full = []string{
 	"null", "true", `""`, `"a"`, `"ab"`, `"aba"`, `"a,b"`, `" a "`, `"é"`, `"aé€"`,
-	"-1", "0", "1", "2", "3", "1.5", "2.0", "1e2", "2147483648", "9007199254740993", "9223372036854775807", "9223372036854775808", "-9223372036854775808",
+	"-1", "0", "1", "2", "3", "1.5", "2.0", "1e2", "3.00000000000000000001", "1.99999999999999999999", "1e-400", "2147483648", "9007199254740993", "9223372036854775807", "9223372036854775808", "-9223372036854775808",
 	"[]", "[1]", "[2,1]", `[1,"a"]`, `["b","a"]`, "[[1,2]]", `[["k",1]]`, `[["k",1,2]]`, "[[1,1]]", "[[null,1]]", `[["k"]]`, "[null]",
 	"{}", `{"a":1}`, `{"a":1,"b":2}`,
 }
